@@ -165,6 +165,22 @@ func (p *poolUnderTest) apply(op string) (obs string) {
 			return "bad-op"
 		}
 		return beObs(p.s, c)
+	case "index":
+		var fam int
+		fmt.Sscanf(f[1], "%d", &fam)
+		a, ok := new(big.Int).SetString(f[2], 16)
+		if !ok {
+			return "bad-op"
+		}
+		return idxObs(p.s, fam, a)
+	case "block":
+		var i int
+		fmt.Sscanf(f[1], "%d", &i)
+		blk, err := p.s.VerifIndexToCIDRBlock(i)
+		if err != nil {
+			return "blk err"
+		}
+		return "blk " + canon.TokNet(blk)
 	}
 	return "bad-op"
 }
